@@ -34,6 +34,16 @@ Theorem C08_typed_sum_finite : forall x l, nfin x = true -> forallb nfin l = tru
   nval_eq (nsum (x :: l)) (nval_add x (nsum l)) = true.
 Proof. exact nsum_cons. Qed.
 Print Assumptions C08_typed_sum_finite.
+(* fn:deep-equal on sequences of atomic values: reflexive, symmetric, same length, pairwise the same value *)
+Theorem C08_typed_deep_equal : forall l1 l2,
+  deep_equal l1 l1 = true /\ deep_equal l1 l2 = deep_equal l2 l1 /\
+  (deep_equal l1 l2 = true -> length l1 = length l2 /\
+     forall k x y, nth_error l1 k = Some x -> nth_error l2 k = Some y -> dv_same x y = true).
+Proof.
+  intros l1 l2. split; [apply deep_equal_refl|]. split; [apply deep_equal_sym|].
+  intros H. split; [apply deep_equal_length; exact H|apply deep_equal_nth; exact H].
+Qed.
+Print Assumptions C08_typed_deep_equal.
 Example C08_typed_nonvacuous :
   distinct_values [ANum TInteger (NFin 1 1); ANum TDouble (NFin 2 2); ABool true; AUntyped 4 None; AStr false 4; ANum TDouble NNaN; ANum TFloat NNaN] =
     [ANum TInteger (NFin 1 1); ABool true; AUntyped 4 None; ANum TDouble NNaN] /\
